@@ -57,12 +57,6 @@ Definition astep_digest (st : astate) (e : kv) : option astate :=
     option_map (fun x => (mkAuthenticate (a_method a) (a_realm a) (a_nonce a) (a_opaque a) (a_stale a) (Some x), rr, nr)) (parse_alg v)
   else Some st.
 
-Fixpoint ofold {S} (step : S -> kv -> option S) (st : S) (l : kvs) : option S :=
-  match l with
-  | [] => Some st
-  | e :: r => match step st e with Some st' => ofold step st' r | None => None end
-  end.
-
 Definition authenticate_unmarshal_with (order : order_t) (s : list N) : res authenticate :=
   match cut SP s with
   | None => Err
@@ -88,21 +82,18 @@ Definition authenticate_unmarshal_with (order : order_t) (s : list N) : res auth
     else Err
   end.
 
-Definition quoted (k v : list N) : list N := k ++ [EQ; DQ] ++ v ++ [DQ].
 Definition CS : list N := [COMMA_; SP].
+Definition alg_str (x : N) : list N := if x =? 0 then S_MD5 else S_SHA256.
 
-Definition alg_item (a : option N) : list N :=
-  match a with
-  | None => []
-  | Some x => CS ++ quoted K_algorithm (if x =? 0 then S_MD5 else S_SHA256)
-  end.
+Definition authenticate_kvitems (a : authenticate) : list item :=
+  if a_method a =? 0 then [(K_realm, VQuoted (a_realm a))]
+  else [(K_realm, VQuoted (a_realm a)); (K_nonce, VQuoted (a_nonce a))]
+       ++ opt_it (a_opaque a) (fun o => (K_opaque, VQuoted o))
+       ++ opt_it (a_stale a) (fun o => (K_stale, VQuoted o))
+       ++ opt_it (a_alg a) (fun x => (K_algorithm, VQuoted (alg_str x))).
 
 Definition authenticate_marshal (a : authenticate) : list N :=
-  if a_method a =? 0 then S_Basic ++ [SP] ++ quoted K_realm (a_realm a)
-  else S_Digest ++ [SP] ++ quoted K_realm (a_realm a) ++ CS ++ quoted K_nonce (a_nonce a)
-       ++ match a_opaque a with Some o => CS ++ quoted K_opaque o | None => [] end
-       ++ match a_stale a with Some o => CS ++ quoted K_stale o | None => [] end
-       ++ alg_item (a_alg a).
+  (if a_method a =? 0 then S_Basic else S_Digest) ++ [SP] ++ render_items CS (authenticate_kvitems a).
 
 (* ---- Authorization ---- *)
 Record authorization := mkAuthorization {
@@ -171,12 +162,15 @@ Definition authorization_unmarshal_with (order : order_t) (s : list N) : res aut
     else Err
   end.
 
+Definition authorization_kvitems (z : authorization) : list item :=
+  [(K_username, VQuoted (z_user z)); (K_realm, VQuoted (z_realm z)); (K_nonce, VQuoted (z_nonce z));
+   (K_uri, VQuoted (z_uri z)); (K_response, VQuoted (z_response z))]
+  ++ opt_it (z_opaque z) (fun o => (K_opaque, VQuoted o))
+  ++ opt_it (z_alg z) (fun x => (K_algorithm, VQuoted (alg_str x))).
+
 Definition authorization_marshal (z : authorization) : list N :=
   if z_method z =? 0 then S_Basic ++ [SP] ++ b64_encode (z_user z ++ [COLON] ++ z_pass z)
-  else S_Digest ++ [SP] ++ quoted K_username (z_user z) ++ CS ++ quoted K_realm (z_realm z) ++ CS
-       ++ quoted K_nonce (z_nonce z) ++ CS ++ quoted K_uri (z_uri z) ++ CS ++ quoted K_response (z_response z)
-       ++ match z_opaque z with Some o => CS ++ quoted K_opaque o | None => [] end
-       ++ alg_item (z_alg z).
+  else S_Digest ++ [SP] ++ render_items CS (authorization_kvitems z).
 
 (* ---- wire ---- *)
 Definition enc_o {A} (o : option A) (f : A -> list N) : list N :=
